@@ -89,7 +89,8 @@ Print Assumptions cssparse_lexer_tok_in_lex.
    that nest properly (evs_ok over the stack of open blocks - ruleset, rule block of @media / @supports / @layer /
    @keyframes / @document, declaration block of @font-face / @page, the kind decided by the hash parseAtRule computes
    from the lower-cased name without vendor prefix, at_st; ToHash is total, so no hypothesis about it is left):
-   declarations and custom properties inside a ruleset or a declaration block; rulesets anywhere (nested ones inside
+   declarations and custom properties inside a ruleset or a declaration block (custom properties also at the top
+   level); rulesets anywhere (nested ones inside
    such blocks); at-rules anywhere; comments, CDO and CDC at the top level; a unit written without its ';' is
    followed directly by the '}' of its block (the usual way to write the last declaration: the parser reads the '}'
    with that unit and reports the end of the block on the next call with the synthesised "}"); every '}' closes
@@ -114,8 +115,9 @@ Print Assumptions cssparse_lexer_tok_in_lex.
      does not follow ',' ':' or '(' and is not a '(' or '[' directly after the at-keyword; EndAtRule;
    - Comment with the comment as data; Token with the CDO / CDC token as data;
    and then the end-of-input report; no parse error is reported.
-   MISSING: the block of an at-rule with any other name (unknown at-rule: a stream of Token units with whitespace
-   kept), custom properties at the top level, comments inside blocks (the parser drops them; between two value tokens
+   MISSING: the block of an at-rule with any other name (unknown at-rule: a stream of Token units, one per lexer
+   token with whitespace kept except directly after the '{', comments dropped, closed by the '}' at bracket level 0),
+   comments inside blocks (the parser drops them; between two value tokens
    they act like whitespace) - covered by the well-formed-stylesheet oracle only.  Known deviations on inputs of this
    shape: declarations directly inside an at-rule nested in a ruleset are a parse error (finding
    wellformed-nested-at-decl); Values() of units without values are stale (finding conservation-stale-values). *)
